@@ -1,4 +1,5 @@
 import PyYetiVerif.Props.C05
+import PyYetiVerif.Props.C05Gen
 #print axioms PyYetiVerif.C05.count_total
 #print axioms PyYetiVerif.C05.rows_total
 #print axioms PyYetiVerif.C05.cycle_values
@@ -11,3 +12,15 @@ import PyYetiVerif.Props.C05
 #print axioms PyYetiVerif.C05.scale
 #print axioms PyYetiVerif.C05.largest_range_counted
 #print axioms PyYetiVerif.C05.largest_range_needs_reversals
+#print axioms PyYetiVerif.C05.generated_rainflow1_eq_model
+#print axioms PyYetiVerif.C05.generated_rainflow2_eq_model
+#print axioms PyYetiVerif.C05.generated_entry_eq_model
+#print axioms PyYetiVerif.C05.generated_wrapper_eq_model
+#print axioms PyYetiVerif.C05.generated_rainflow2_eq_model_field
+#print axioms PyYetiVerif.C05.entry_refuses_iff
+#print axioms PyYetiVerif.C05.entry_other_errors
+#print axioms PyYetiVerif.C05.entry_impls_agree_partial
+#print axioms PyYetiVerif.C05.entry_impls_agree_needs_safe
+#print axioms PyYetiVerif.C05.entry_result_shape
+#print axioms PyYetiVerif.C05.wrapper_is_relabel
+#print axioms PyYetiVerif.C05.call_history_irrelevant
